@@ -488,6 +488,7 @@ let run_ksim (dump : Stdlib.String.t list) (hist : Stdlib.String.t) (out : Buffe
           let idle = k_is_idle_cfg cfg !k && zidle () in
           let (k', block) = k_can_block cfg !k (n_of_int 1) in
           k := k';
+          let block = block && zidle () in     (* is_idle() includes the zippychord state (zch().zch_is_idle()) *)
           Buffer.add_string out (Printf.sprintf "Q@%d idle=%d block=%d\n" !tick (if idle then 1 else 0) (if block then 1 else 0));
           dump_macros ()
         | 't' ->
